@@ -306,7 +306,7 @@ static int sched_hook(int nready)
         struct ev E[24]; int n = 0;
         n_select++;
         audit_queue();
-        if (n_select > 5000) { viol("daemon main loop does not go idle", "more than 5000 select rounds"); return ENV_EXIT; }
+        if (n_select > 1500) { viol("daemon main loop does not go idle (spins or stops serving)", "more than 1500 select rounds in a %d frame script", SC->nframes); return ENV_EXIT; }
         if (nready > 0) { E[n].kind = EV_RUN; E[n++].c = 0; }
         for (int c = 0; c < SC->nclients; c++) if (readable(c) || eof_pending(c)) { E[n].kind = EV_DRAIN; E[n++].c = c; }
         int first_frame = last_was_step;
@@ -461,6 +461,203 @@ static void stall_case(uint64_t idx, void *arg)
         if (idx % 97 == 0) mc_sample("%s: stalled client lost %d of its frames, others complete", sched_desc, lost0);
 }
 
+
+/* ---- phase "conform": the REAL client library against the daemon ------------------------------
+ * Binds the scripted client alphabet to src/proxy-client.c.  The daemon runs as a forked child in
+ * pass-through mode (real select()/send(), listening on a real AF_UNIX socket derived from a private
+ * device name); the parent drives vbi_proxy_client_create / vbi_capture_proxy_new /
+ * vbi_capture_pull_sliced / vbi_capture_update_services / vbi_proxy_client_channel_request /
+ * _notify / delete, posts frame k to the shared eventfd and then pulls it, strictly alternating, so
+ * the run is sequential and repeatable.  Checked: (1) every frame returned by
+ * vbi_capture_pull_sliced() equals the reference capture filtered to the granted services, with its
+ * timestamp, exactly once and in order; (2) every message the real library sends is byte-identical
+ * to the message the scripted clients of phases "sched"/"stall" (and of C19) build for the same
+ * parameters, except client name and pid.  traces_validated_against_impl counts these runs. */
+#include <sys/wait.h>
+#include <signal.h>
+#include <sys/stat.h>
+#include "src/proxy-client.h"
+#include "src/inout.h"
+#include <sys/time.h>
+
+static int conf_fail(const char *what, const char *fmt, ...)
+{
+        char key[200], det[300]; va_list ap;
+        snprintf(key, sizeof key, "conform: %s", what);
+        va_start(ap, fmt); vsnprintf(det, sizeof det, fmt, ap); va_end(ap);
+        mc_violation(key, "%s", det);
+        return -1;
+}
+
+static int pull_frame(vbi_capture *cap, int k, unsigned grant, const char *who)
+{
+        for (int tries = 0; tries < 8; tries++) {
+                vbi_capture_buffer *sb = NULL; struct timeval tv = { 30, 0 };
+                int r = vbi_capture_pull_sliced(cap, &sb, &tv);
+                if (r < 0) return conf_fail("vbi_capture_pull_sliced failed", "%s frame %d errno %d", who, k, errno);
+                if (r == 0) continue;                      /* a status indication, or a timeout */
+                env_frame_t f; env_make_frame(k, &f);
+                int n = sb->size / sizeof(vbi_sliced), want = 0;
+                const vbi_sliced *got = sb->data;
+                for (int i = 0; i < f.nlines; i++) if (f.lines[i].id & grant) {
+                        if (want >= n || memcmp(&got[want], &f.lines[i], sizeof(vbi_sliced)))
+                                return conf_fail("frame returned by the real client library differs from the reference capture", "%s frame %d line %d", who, k, i);
+                        want++;
+                }
+                if (want != n) return conf_fail("frame returned by the real client library has extra lines", "%s frame %d: %d lines, expected %d", who, k, n, want);
+                if (sb->timestamp < f.timestamp - 1e-9 || sb->timestamp > f.timestamp + 1e-9)
+                        return conf_fail("wrong timestamp through the real client library", "%s frame %d", who, k);
+                return 0;
+        }
+        return conf_fail("frame not delivered to the real client library", "%s frame %d (no SLICED_IND within the timeout)", who, k);
+}
+
+/* compare the bytes the library just sent with the scripted builder's message: header and every NAMED
+ * field of the body (compiler padding and the reserved[] members are sent uninitialised by the library
+ * and are not read by the daemon; client name and pid differ by construction) */
+#define FIELD(T, m) { offsetof(T, m), sizeof(((T *) 0)->m) }
+struct fld { size_t off, len; };
+static int tap_expect(const char *what, uint32_t type, const void *body, size_t blen, const struct fld *f, int nf)
+{
+        uint8_t want[sizeof(VBIPROXY_MSG) + 64]; size_t n = env_build_msg(want, type, body, blen);
+        int rc = 0;
+        if ((size_t) env_tap_len != n) { conf_fail("real client message has a different length than the scripted one", "%s: sent %d bytes, scripted %zu", what, env_tap_len, n); env_tap_len = 0; return -1; }
+        if (memcmp(env_tap, want, 8)) { conf_fail("real client message header differs from the scripted one", "%s", what); rc = -1; }
+        for (int k = 0; k < nf && !rc; k++)
+                if (memcmp(env_tap + 8 + f[k].off, want + 8 + f[k].off, f[k].len)) {
+                        conf_fail("real client message differs from the scripted one", "%s: field at body offset %zu (%zu bytes)", what, f[k].off, f[k].len); rc = -1;
+                }
+        env_tap_len = 0;
+        return rc;
+}
+static const struct fld FL_CONNECT[] = { FIELD(VBIPROXY_CONNECT_REQ, magics), FIELD(VBIPROXY_CONNECT_REQ, client_flags), FIELD(VBIPROXY_CONNECT_REQ, scanning),
+        FIELD(VBIPROXY_CONNECT_REQ, buffer_count), FIELD(VBIPROXY_CONNECT_REQ, services), FIELD(VBIPROXY_CONNECT_REQ, strict) };
+static const struct fld FL_SERVICE[] = { FIELD(VBIPROXY_SERVICE_REQ, reset), FIELD(VBIPROXY_SERVICE_REQ, strict), FIELD(VBIPROXY_SERVICE_REQ, services) };
+static const struct fld FL_TOKEN[] = { FIELD(VBIPROXY_CHN_TOKEN_REQ, chn_prio), FIELD(VBIPROXY_CHN_TOKEN_REQ, chn_profile.is_valid), FIELD(VBIPROXY_CHN_TOKEN_REQ, chn_profile.sub_prio),
+        FIELD(VBIPROXY_CHN_TOKEN_REQ, chn_profile.allow_suspend), FIELD(VBIPROXY_CHN_TOKEN_REQ, chn_profile.min_duration), FIELD(VBIPROXY_CHN_TOKEN_REQ, chn_profile.exp_duration) };
+static const struct fld FL_NOTIFY[] = { FIELD(VBIPROXY_CHN_NOTIFY_REQ, notify_flags), FIELD(VBIPROXY_CHN_NOTIFY_REQ, scanning) };
+#define NF(a) ((int)(sizeof a / sizeof a[0]))
+
+static void conform_case(uint64_t idx, void *arg)
+{
+        char dev[64], *sockpath; int efd;
+        vkey = "conform"; snprintf(sched_desc, sizeof sched_desc, "conformance run %d", (int) idx);
+        mc_case("conform: real client library run dies", "variant %d", (int) idx);
+        snprintf(dev, sizeof dev, "/dev/vbi-verif-%d-%d", (int) getpid(), (int) idx);
+        sockpath = vbi_proxy_msg_get_socket_name(dev);
+        efd = eventfd(0, EFD_SEMAPHORE | EFD_NONBLOCK);
+        unlink(sockpath);
+        pid_t child = fork();
+        if (child == 0) {
+                /* the daemon process */
+                env_passthrough = 1; env_cap.use_thread = 0; env_cap.fail_open = 0; env_buffer_count = 0;
+                memset(&proxy, 0, sizeof proxy); proxy.tcp_ip_fd = -1; pthread_mutex_init(&proxy.clnt_mutex, NULL);
+                opt_debug_level = 0; opt_max_clients = DEFAULT_MAX_CLIENTS; opt_buffer_count = DEFAULT_BUFFER_COUNT;
+                vbi_proxy_msg_set_logging(FALSE, 0, 0, NULL);
+                signal(SIGPIPE, SIG_IGN);
+                vbi_proxyd_set_max_conn(opt_max_clients);
+                memset(&env_cap, 0, sizeof env_cap); env_cap.efd = efd;
+                vbi_proxyd_add_device(strdup(dev));
+                proxy.dev[0].pipe_fd = vbi_proxy_msg_listen_socket(FALSE, NULL, proxy.dev[0].p_sock_path);
+                if (proxy.dev[0].pipe_fd < 0) _exit(44);
+                alarm(0); { struct itimerval it = { {0,0}, {120,0} }; setitimer(ITIMER_REAL, &it, NULL); signal(SIGALRM, SIG_DFL); }
+                vbi_proxyd_main_loop();
+                _exit(0);
+        }
+        env_passthrough = 1;
+        int ok = 0; struct stat st;
+        for (int i = 0; i < 3000 && !ok; i++) { if (stat(sockpath, &st) == 0) ok = 1; else usleep(2000); }
+        if (!ok) { conf_fail("harness: daemon process did not start listening", "%s", sockpath); goto out; }
+
+        {
+                char *err = NULL; uint64_t one = 1;
+                vbi_proxy_client *v1 = vbi_proxy_client_create(dev, "conf1", 0, &err, 0), *v2 = NULL;
+                vbi_capture *c1 = NULL, *c2 = NULL;
+                unsigned s1 = TTX | VPS, s2 = WSS | CC;
+                if (!v1) { conf_fail("vbi_proxy_client_create failed", "%s", err ? err : "?"); goto out; }
+                env_tap_on = 1; env_tap_len = 0;
+                c1 = vbi_capture_proxy_new(v1, 5, 625, &s1, 0, &err);
+                env_tap_on = 0;
+                if (!c1 || s1 != (TTX | VPS)) { conf_fail("vbi_capture_proxy_new failed or granted other services", "services %x err %s", s1, err ? err : "-"); goto out; }
+                {       /* the library's CONNECT_REQ against the scripted one */
+                        VBIPROXY_CONNECT_REQ q; env_fill_connect_req(&q, "conf1", TTX | VPS, 0, 5); q.pid = 0;
+                        tap_expect("CONNECT_REQ", MSG_TYPE_CONNECT_REQ, &q, sizeof q, FL_CONNECT, NF(FL_CONNECT));
+                }
+                if (idx >= 1) {
+                        v2 = vbi_proxy_client_create(dev, "conf2", 0, &err, 0);
+                        if (v2) c2 = vbi_capture_proxy_new(v2, 5, 625, &s2, 1, &err);
+                        if (!c2 || s2 != (WSS | CC)) { conf_fail("second real client could not subscribe", "services %x", s2); goto out; }
+                }
+                int k = 0;
+                for (; k < 3; k++) {
+                        if (write(efd, &one, 8) != 8) goto out;
+                        if (pull_frame(c1, k, s1, "client 1")) goto out;
+                        if (c2 && pull_frame(c2, k, s2, "client 2")) goto out;
+                }
+                /* service change through the library: reset to WSS */
+                env_tap_on = 1; env_tap_len = 0;
+                unsigned got = vbi_capture_update_services(c1, TRUE, TRUE, WSS, 1, &err);
+                env_tap_on = 0;
+                if (got != WSS) { conf_fail("vbi_capture_update_services through the proxy failed", "granted %x", got); goto out; }
+                { VBIPROXY_SERVICE_REQ q; memset(&q, 0, sizeof q); q.reset = 1; q.commit = 1; q.strict = 1; q.services = WSS;
+                  tap_expect("SERVICE_REQ", MSG_TYPE_SERVICE_REQ, &q, sizeof q, FL_SERVICE, NF(FL_SERVICE)); }
+                s1 = WSS;
+                for (; k < 6; k++) {
+                        if (write(efd, &one, 8) != 8) goto out;
+                        if (pull_frame(c1, k, s1, "client 1 after service change")) goto out;
+                        if (c2 && pull_frame(c2, k, s2, "client 2")) goto out;
+                }
+                {       /* a service change the device cannot satisfy is rejected; the subscription continues unchanged */
+                        unsigned g = vbi_capture_update_services(c1, FALSE, TRUE, VBI_SLICED_CAPTION_525, 0, &err);
+                        if (g & VBI_SLICED_CAPTION_525) { conf_fail("service the device cannot capture was granted through the library", "granted %x", g); goto out; }
+                        for (; k < 8; k++) {
+                                if (write(efd, &one, 8) != 8) goto out;
+                                if (pull_frame(c1, k, s1, "client 1 after a rejected service change")) goto out;
+                                if (c2 && pull_frame(c2, k, s2, "client 2")) goto out;
+                        }
+                }
+                if (idx >= 2) {
+                        /* channel token through the library */
+                        vbi_channel_profile pr; memset(&pr, 0, sizeof pr); pr.is_valid = 1; pr.sub_prio = 0x10; pr.min_duration = 0; pr.exp_duration = 0;
+                        env_tap_on = 1; env_tap_len = 0;
+                        int g1 = vbi_proxy_client_channel_request(v1, VBI_CHN_PRIO_BACKGROUND, &pr);
+                        env_tap_on = 0;
+                        { VBIPROXY_CHN_TOKEN_REQ q; memset(&q, 0, sizeof q); q.chn_prio = VBI_CHN_PRIO_BACKGROUND; q.chn_profile = pr;
+                          tap_expect("CHN_TOKEN_REQ", MSG_TYPE_CHN_TOKEN_REQ, &q, sizeof q, FL_TOKEN, NF(FL_TOKEN)); }
+                        int g2 = v2 ? vbi_proxy_client_channel_request(v2, VBI_CHN_PRIO_BACKGROUND, &pr) : 0;
+                        if (g1 < 0 || g2 < 0) { conf_fail("channel request failed", "%d %d", g1, g2); goto out; }
+                        if (g1 + g2 > 1) { conf_fail("two real clients both told they hold the channel token", "%d %d", g1, g2); goto out; }
+                        env_tap_on = 1; env_tap_len = 0;
+                        int nr = vbi_proxy_client_channel_notify(v1, VBI_PROXY_CHN_TOKEN, 0);
+                        env_tap_on = 0;
+                        { VBIPROXY_CHN_NOTIFY_REQ q; memset(&q, 0, sizeof q); q.notify_flags = VBI_PROXY_CHN_TOKEN; q.scanning = 0;
+                          tap_expect("CHN_NOTIFY_REQ", MSG_TYPE_CHN_NOTIFY_REQ, &q, sizeof q, FL_NOTIFY, NF(FL_NOTIFY)); }
+                        if (nr < 0) { conf_fail("channel notify failed", "%d", nr); goto out; }
+                        for (; k < 10; k++) {
+                                if (write(efd, &one, 8) != 8) goto out;
+                                if (pull_frame(c1, k, s1, "client 1 after token traffic")) goto out;
+                                if (c2 && pull_frame(c2, k, s2, "client 2 after token traffic")) goto out;
+                        }
+                }
+                env_tap_on = 1; env_tap_len = 0;
+                vbi_capture_delete(c1);
+                vbi_proxy_client_destroy(v1);
+                env_tap_on = 0;
+                /* the library leaves by closing its socket, it never sends CLOSE_REQ: the scripted action is the abrupt close */
+                if (env_tap_len != 0) conf_fail("real client library sent bytes while closing (scripted clients model an abrupt close)", "%d bytes", env_tap_len);
+                env_tap_len = 0;
+                if (c2) vbi_capture_delete(c2);
+                if (v2) vbi_proxy_client_destroy(v2);
+                mc_count("traces_validated", 1); mc_count("states", 1); mc_count("transitions", k);
+                mc_distinct(0xC0F00000 + idx);
+                mc_sample("conformance run %d: real proxy-client.c, %d client(s), %d frames pulled and compared, CONNECT_REQ/SERVICE_REQ%s fields equal the scripted builders, leaves by closing the socket", (int) idx, c2 ? 2 : 1, k, idx >= 2 ? "/CHN_TOKEN_REQ/CHN_NOTIFY_REQ" : "");
+        }
+out:
+        kill(child, SIGKILL); { int st2; waitpid(child, &st2, 0); }
+        unlink(sockpath); free(sockpath); close(efd);
+        env_passthrough = 0;
+}
+
 /* ---------------------------------------------------------------------------------------- */
 
 int main(int argc, char **argv)
@@ -493,5 +690,6 @@ int main(int argc, char **argv)
                         for (int sv = 0; sv <= (ncl == 3); sv++) { struct stallcfg st = { buffers, ncl, a, b, sv }; stalls[nstalls++] = st; }
         stalls = realloc(stalls, (nstalls + 1) * sizeof *stalls);
         mc_pool("stall", nstalls, stall_case, NULL, 60);
+        mc_pool("conform", 3, conform_case, NULL, 200);
         return mc_finish();
 }
